@@ -45,6 +45,9 @@ def scripts_for(rnd, pairs, others):
     """(sigver, script, stack, description) using listed pairs and unlisted (sig,key) combinations"""
     out = []
     pool = list(pairs)
+    sigs_of = {}
+    for s_, k_ in pool: sigs_of.setdefault(s_, []).append(k_)
+    shared = [(s_, k_) for s_, ks in sigs_of.items() if len(set(ks)) >= 2 for k_ in sorted(set(ks))]   # signatures listed under two keys
     def pick(kind):
         if kind == "listed" and pool: return rnd.choice(pool)
         if kind == "wrong-sig" and pool: return (rand_sig(rnd), rnd.choice(pool)[1])
@@ -60,6 +63,20 @@ def scripts_for(rnd, pairs, others):
             out.append((sv, bytes([OP_CHECKSIG]), [s, k], kind + ":checksig"))
             out.append((sv, bytes([OP_CHECKSIGVERIFY, 0x51]), [s, k], kind + ":checksigverify"))
         out.append((3, bytes([OP_CHECKSIGADD]), [s, b"\x02", k], kind + ":checksigadd"))
+    # a signature listed under several keys: it must be accepted for EACH of them (the pair table is a set of pairs)
+    for (s, k) in shared:
+        for sv in (0, 1, 3):
+            out.append((sv, bytes([OP_CHECKSIG]), [s, k], "shared-sig:checksig"))
+            out.append((sv, bytes([OP_CHECKSIGVERIFY, 0x51]), [s, k], "shared-sig:checksigverify"))
+        out.append((3, bytes([OP_CHECKSIGADD]), [s, b"\x02", k], "shared-sig:checksigadd"))
+    for s_, ks in sigs_of.items():
+        ks = sorted(set(ks))
+        if len(ks) >= 2:
+            # n-of-n CHECKMULTISIG where the one signature stands for every key it is listed under
+            stack = [b""] + [s_] * len(ks) + [R.scriptnum(len(ks))] + ks + [R.scriptnum(len(ks))]
+            for sv in (0, 1):
+                out.append((sv, bytes([OP_CHECKMULTISIG]), stack, "shared-sig:multisig"))
+                out.append((sv, bytes([OP_CHECKMULTISIGVERIFY, 0x51]), stack, "shared-sig:multisigverify"))
     # the same (signature, key) offered twice in one session: the second evaluation must answer as the first did
     OP_DROP = 0x75
     for kind in ("listed", "wrong-sig", "wrong-key", "crossed", "unlisted"):
@@ -111,25 +128,27 @@ def run(ctx):
         if shape == "same-pair-twice" and pairs: pairs.append(pairs[0])
         if shape == "same-sig-two-keys" and pairs: pairs.append((pairs[0][0], rand_key(rnd)))
         text = ",".join(f"{field(rnd, s)}:{field(rnd, k)}" for s, k in pairs) + ("," if shape == "trailing-comma" else "")
-        dup = len({s for s, _ in pairs}) != len({(s, k) for s, k in pairs})
+        dup = len({s for s, _ in pairs}) != len({(s, k) for s, k in pairs})      # some signature is listed under two keys
         for (sv, script, stack, desc) in scripts_for(rnd, pairs, None):
             fl = rnd.choice(flagsets)
             lines.append(prun(text, sv, fl, script, stack)); meta.append((desc, dup, pairs, sv, fl, script, stack))
     impl = ctx.harness_sharded(lines)
     model = ctx.driver_sharded(lines, "model")
     spec = ctx.driver_sharded(lines, "spec")
-    dupset = {l for l, m in zip(lines, meta) if m[1]}
-    def region(case, im, mo, sp):
-        return "F-C11-dup-sig" if case in dupset else None
-    ctx.compare("pretend", lines, impl, model, spec, region=region, nontrivial=lambda c, im: "steps=" in im)
+    ctx.compare("pretend", lines, impl, model, spec, nontrivial=lambda c, im: "steps=" in im)
     # independent expectations
     hist = {}
     for l, im, m in zip(lines, impl, meta):
         desc, dup, pairs, sv, fl, script, stack = m
         key = desc + ("" if "end=OK" in im else "/fail")
         hist[key] = hist.get(key, 0) + 1
-        if desc == "listed:checksig" and not dup and not re.search(r"end=OK final=01\|", im):
-            ctx.violation(l, {"stream": "pretend-expect", "impl": im, "why": "a listed (signature, key) pair was not accepted by OP_CHECKSIG"})
+        if desc in ("listed:checksig", "shared-sig:checksig", "shared-sig:multisig") and not re.search(r"end=OK final=01\|", im):
+            ctx.violation(l, {"stream": "pretend-expect", "impl": im, "why": "a listed (signature, key) pair was not accepted by " + ("OP_CHECKMULTISIG" if "multisig" in desc else "OP_CHECKSIG") + (" (signature listed under several keys)" if desc.startswith("shared") else "")})
+        if desc in ("listed:checksigverify", "shared-sig:checksigverify", "shared-sig:multisigverify") and not re.search(r"end=OK final=01\|", im):
+            ctx.violation(l, {"stream": "pretend-expect", "impl": im, "why": "a listed (signature, key) pair was not accepted by the VERIFY form"})
+        if desc in ("listed:checksigadd", "shared-sig:checksigadd") and not re.search(r"end=OK final=03\|", im):
+            ctx.violation(l, {"stream": "pretend-expect", "impl": im, "why": "a listed (signature, key) pair was not counted by OP_CHECKSIGADD (2 + 1 expected)"})
+        if dup: hist["(cases whose list has a signature under two keys)"] = hist.get("(cases whose list has a signature under two keys)", 0) + 1
         if desc in ("wrong-sig:checksig", "crossed:checksig", "unlisted:checksig", "wrong-key:checksig") and (stack[0], stack[1]) not in pairs and (sv != 3 or len(stack[1]) == 32) and re.search(r"end=OK final=01\|", im):
             ctx.violation(l, {"stream": "pretend-expect", "impl": im, "why": "a pair that is not listed was accepted (no transaction context: no real signature can verify)"})
     ctx.notes.append("pretend histogram: " + ", ".join(f"{k}={v}" for k, v in sorted(hist.items())))
